@@ -324,7 +324,8 @@ def run_limit(res, limit, enames, root, max_inc, max_exc):
 
 def run_wcmatch(res, limit, root):
     L = 1000 if limit == DEFAULT else limit
-    for text, T, U in catalogue(L if L else 5) + ([(HUGE, 10 ** 8, 10 ** 8)] if L else []):
+    # limit=0 switches the check off: also beyond the default of 1000
+    for text, T, U in catalogue(L if L else 5) + ([(HUGE, 10 ** 8, 10 ** 8)] if L else [('{1..1500}', 1500, 1500)]):
         for how in WC_HOWS:
             inp = {'entry': 'WcMatch', 'inclusions': [text], 'exclusions': [], 'how': how, 'limit': limit}
             res.n['evaluations'] += 1
